@@ -535,6 +535,10 @@ HEAVY = {
 VERY_HEAVY = {"beta_quotient", "beta_binomial", "dirichlet_multinomial", "non_central_chi2", "skellam", "von_mises_fisher",
               "lambert_w_normal", "negative_binomial"}
 HEAVY |= VERY_HEAVY
+# log_prob itself contains while-loops (hypergeometric / Bessel / Lambert-W series): an eager log_prob call
+# compiles them every time (beta_quotient: ~15 s and ~2000 memory mappings per call), so for these the
+# whole battery runs inside the jitted program of the structure, in the canonical invocation form
+JIT_ONLY = {"beta_quotient", "skellam", "non_central_chi2", "von_mises_fisher", "lambert_w_normal"}
 NEVER_EAGER_SAMPLER = {"beta_quotient", "skellam", "dirichlet_multinomial", "non_central_chi2"}  # > 5 s per eager draw
 
 
@@ -777,8 +781,16 @@ def sampling_program(name, struct):
             alts[fname] = (t.get_retval(), t.get_score())
         imp_n = g.importance(k1, C.n(), args) if name not in HEAVY else None
         imp_m = g.importance(k1, C.v(x0).mask(flag), args)
-        u = tr.update(k2, C.v(x1).mask(flag), Diff.unknown_change(stored_args(pos1, kw1)))
-        return tr, alts, imp_n, imp_m, (u[0], u[1], u[3])
+        changed = Diff.unknown_change(stored_args(pos1, kw1))
+        u = tr.update(k2, C.v(x1).mask(flag), changed)
+        extra = None
+        if name in JIT_ONLY:
+            uc = tr.update(k2, C.v(x1), changed)
+            ue = tr.update(k2, C.n(), changed)
+            u0 = tr.update(k2, C.v(x0))
+            extra = dict(assess=g.assess(C.v(x0), args), imp=g.importance(k1, C.v(x0), args),
+                         upd_changed=(uc[0], uc[1], uc[3]), upd_empty=(ue[0], ue[1], ue[3]), upd_same=(u0[0], u0[1], u0[3]))
+        return tr, alts, imp_n, imp_m, (u[0], u[1], u[3]), extra
 
     if len(_PROGS) >= 3:
         _PROGS.clear()
@@ -840,9 +852,24 @@ def _chm_value(chm):
 _EAGER_COND = [0]
 
 
+def _release_compiled_if_needed():
+    """every XLA executable holds memory mappings and the kernel limit (vm.max_map_count) is finite:
+    drop all compiled programs when this process holds many (results do not depend on it)"""
+    try:
+        with open("/proc/self/maps") as f:
+            n = sum(1 for _ in f)
+    except OSError:
+        return
+    if n > 25000:
+        _PROGS.clear()
+        _REF_FNS.clear()
+        _lib()["jax"].clear_caches()
+
+
 def check_case(case, ctx=None):
     L = _lib()
     jax, jnp, C, Diff = L["jax"], L["jnp"], L["C"], L["Diff"]
+    _release_compiled_if_needed()
     name = case["dist"]
     r = ROWS[name]
     gf = gen_fn_of(name)
@@ -955,7 +982,7 @@ def check_case(case, ctx=None):
     flag = bool(case["mask"]["flag"])
     with warnings.catch_warnings():
         warnings.simplefilter("ignore")
-        tr_j, alts, imp_n, imp_m, upd_m = sampling_program(name, struct)(keys[0], keys[1], keys[2], A0, A1, x0, x1, jnp.asarray(flag))
+        tr_j, alts, imp_n, imp_m, upd_m, extra = sampling_program(name, struct)(keys[0], keys[1], keys[2], A0, A1, x0, x1, jnp.asarray(flag))
     jmain = len(names) if variant["npos"] == len(names) else 0
     jpos, jkw = invocation(names, jmain, A0, case["ss"])
     jpos1, jkw1 = invocation(names, jmain, A1, case["ss"])
@@ -985,6 +1012,29 @@ def check_case(case, ctx=None):
             as_mask_kind(False, lambda: check_update("jit update(C.v(x).mask(traced False), unknown_change(args'))", upd_m, vj, Lvj0, Mvj0, vj, Lvj1, Mvj1, a1j, False))
     elif ctx is not None:
         ctx.count("nonfinite-score-at-sampled-value")
+
+    if extra is not None:
+        # the battery of a JIT_ONLY wrapper (canonical form, traced arguments), then done
+        sc, rv = extra["assess"]
+        if not tol(Mx0).close(sc, Lx0):
+            bad("assess-vs-tfp", f"jit assess(drawn value {_np(x0).tolist()}) = {float(sc)!r} != sum log_prob = {Lx0!r}")
+        if not np.array_equal(_np(rv), _np(x0)):
+            bad("value-installed", f"jit assess returned retval {_np(rv).tolist()} for value {_np(x0).tolist()}")
+        if r["scipy"] is not None:
+            with np.errstate(all="ignore"):
+                lp = np.asarray(r["scipy"](P0, _np(x0).astype(np.float64)), dtype=np.float64)
+            want = float(np.broadcast_to(lp, ss + batch).sum())
+            if not _Tol(nterms, max(Mx0, float(np.max(np.abs(lp))))).close(sc, want, scale=5.0):
+                bad("scipy", f"jit assess({_np(x0).tolist()}) = {float(sc)!r}, float64 reference (scipy / closed form of the documented parametrisation) = {want!r}, params {case['params']}")
+            if ctx is not None:
+                ctx.count("scipy-checked")
+        check_constrained("jit importance(C.v(x))", extra["imp"][0], extra["imp"][1], x0, Lx0, Mx0, "importance-vs-tfp")
+        if math.isfinite(Lvj0):
+            a0j = stored_args(jpos, jkw)
+            check_update("jit update(C.v(x))", extra["upd_same"], vj, Lvj0, Mvj0, x0, Lx0, Mx0, a0j, True)
+            check_update("jit update(C.v(x), unknown_change(args'))", extra["upd_changed"], vj, Lvj0, Mvj0, x1, Lx1, Mx1, a1j, True)
+            check_update("jit update(empty, unknown_change(args'))", extra["upd_empty"], vj, Lvj0, Mvj0, vj, Lvj1, Mvj1, a1j, False)
+        return
 
     # =====================================================================================
     # part 2: eager calls in the drawn invocation form (python scalars / arrays / lists)
@@ -1134,7 +1184,7 @@ def classes_of(case):
         f"jit-mask:traced-{m['flag']}",
         f"eager-mask:{m['kind']}:{m['flag']}:" + ("importance+update" if m["kind"] == "py" else m["op"] + (":args-changed" if m["op"] == "update" and m["chg"] else "")),
         f"variant:{n}:{case['variant']}",
-        "eager-sampler" if case["eager_sim"] else "jit-sampler-only",
+        "jit-only-battery" if n in JIT_ONLY else ("eager-sampler" if case["eager_sim"] else "jit-sampler-only"),
         "args:" + ("python-scalars" if case["pyscalar"] else "arrays"),
     ]
     if case["shape"] != "s":
